@@ -1,2 +1,5 @@
 import Biogo.Properties.C13
 open Biogo.Properties.C13
+#print axioms fault_surfaces
+#print axioms cleanup_removes_dir
+#print axioms autoclean_drain_removes_dir
